@@ -150,4 +150,14 @@ CHECKS = {
             "the reference is the harness author's reading of SIP004 / SIP022 / SIP023, the VMess AEAD description and Trojan; where the de-facto specification is v2ray's behaviour (authenticated length keyed by the request key and IV in both directions, padding drawn before the size mask) it follows that - these points have reduced independence",
             "VMess / Trojan datagram-in-stream formats are exercised between the two real ends (C02), not against the reference"],
     },
+    "C10": {
+        "level": "fault_enumeration",
+        "parts": [{"gen": "C10", "quick": 14400, "thorough": 144000}],
+        "rule": "the kind of probe cycles with the seed (12 kinds), its parameter is swept by seed div 12: reference client -> real Shadowsocks-2022 server with every timestamp offset -35..+35 s (accept iff |d| <= 30) and type bytes {0,1,2,3,0x7f,0x80,0xff}; "
+                "the same for 2022 datagrams; VMess auth-id offsets {+-119,+-120,+-121,+-125,...} (accept iff |d| <= 120); replay histories - a valid handshake accepted with the client clock d0 in [-30,+30] s ahead, the identical bytes again at once and again after the "
+                "paused clock has advanced d in [0,70] s (half of them on the edge d = d0 + 30 - k where the copy is about to run out), always followed by a fresh control handshake that must be served; reference server -> real client with a response typed as a request, "
+                "a stale response (-35..+35 s), a response echoing another request salt, a VMess response with a different authentication byte or under keys of another request, each followed by a correct control response. "
+                "Oracle: accept (server dials and relays / client releases bytes to the application) must equal the reference predicate.",
+        "real": REAL_SYSTEM, "stub": STUB_SYSTEM + ["the hostile peer is the reference implementation"], "assumptions": ASSUME_SYSTEM + ["copies arriving at the same instant on different threads are the shuttle engine's part (C09)", "plain tcp / udp carriers"],
+    },
 }
